@@ -50,13 +50,16 @@ Definition run_text (v : val) : val :=
   let cps := map vz (vl (vnth 1 v)) in
   VL [ VB (utf8_enc cps); VB (utf16le_enc cps); VB (to_utf16 (utf8_enc cps)) ].
 
-Definition vmember (m : member) : val := VL [VB (m_name m); VZ (m_size m); VB (m_data m); VZ (m_off m)].
+(* [stored name, size, data, offset, normalised name (Sign), name written into the Files: line (Sign)] *)
+Definition vmember (m : member) : val :=
+  VL [VB (m_name m); VZ (m_size m); VB (m_data m); VZ (m_off m); VB (m_cname m); VB (deb_line_name (m_name m) (m_cname m))].
 Definition vpairs (l : list (bytes * bytes)) : val := VL (map (fun p => VL [VB (fst p); VB (snd p)]) l).
 Definition vres_pairs (r : result (list (bytes * bytes))) : val :=
   VL [VZ (st_of r); match r with Ok l => vpairs l | _ => VL [] end].
 
 (* [2 role mtime file blob oklist] ->
-   [scan(status members n) embed extract(role,g) sigs(g) wf payload(f) payload(g) spec_embed_ok hashin(f)=hashin(g)] *)
+   [scan(status members n) embed extract(role,g) sigs(g) wf payload(f) payload(g) spec_embed_ok hashin(f)=hashin(g)
+    wf2(f) spec_embed_by_logical_name_ok slot_replaced_ok wf2(g) logical_names(f)] *)
 Definition run_deb (v : val) : val :=
   let role := vb (vnth 1 v) in
   let mtime := vz (vnth 2 v) in
@@ -86,7 +89,21 @@ Definition run_deb (v : val) : val :=
        match g with
        | Ok gb => of_bool (match deb_hashin ctl f, deb_hashin ctl gb with Ok a, Ok b => bytes_eqb a b | _, _ => false end)
        | _ => VZ (-1)
-       end ].
+       end;
+       of_bool (deb_wf2 ctl f);
+       of_bool (match g, ar_spec_parse f with
+                | Ok gb, Some es => bytes_eqb gb (ar_spec_file (spec_sign_l role new es))
+                | _, _ => false
+                end);
+       match g with
+       | Ok gb => match ar_spec_parse f, ar_spec_parse gb with
+                  | Some es, Some es' => of_bool (slot_replaced_ok role blob es es')
+                  | _, _ => VZ (-1)
+                  end
+       | _ => VZ (-1)
+       end;
+       match g with Ok gb => of_bool (deb_wf2 ctl gb) | _ => VZ (-1) end;
+       match ar_spec_parse f with Some es => VL (map (fun e => VB (ent_lname e)) es) | None => VL [] end ].
 
 (* [3 file] -> [sigs vmembers payload] *)
 Definition run_deb_verify (v : val) : val :=
@@ -101,6 +118,13 @@ Definition vpair_list (v : val) : list (bytes * bytes) := map (fun p => (vb (vnt
 Definition run_deb_check (v : val) : val :=
   VL [ VZ (st_of (deb_check (vpair_list (vnth 1 v)) (vpair_list (vnth 2 v)))) ].
 
+(* [6 name] -> the Go string functions the translator knows, relic's normalisation (generated), the specification's logical name *)
+Definition run_names (v : val) : val :=
+  let n := vb (vnth 1 v) in
+  VL [ VB (go_path_clean n); VB (go_path_base n); VB (go_trim_space n); VB (go_trim_suffix n [47]); VB (go_trim_right n [47; 32]);
+       VB (go_trim_prefix n [46; 47]); VB (go_trim_left n [47]); VB (go_trim n [32; 47]); VB (go_to_lower n); VB (go_to_upper n);
+       VB (deb_norm n); VB (ar_logical (pad_sp 16 n)) ].
+
 Definition run (v : val) : val :=
   let k := vz (vnth 0 v) in
   if k =? 0 then run_ps v
@@ -108,4 +132,5 @@ Definition run (v : val) : val :=
   else if k =? 2 then run_deb v
   else if k =? 3 then run_deb_verify v
   else if k =? 4 then run_deb_check v
+  else if k =? 6 then run_names v
   else run_text v.
